@@ -796,6 +796,14 @@ unsafe impl Allocator for PageAlignedAllocator {
     unsafe fn deallocate(&self, ptr: ptr::NonNull<u8>, layout: Layout) {
         let pagesize = *PAGESIZE;
 
+        // wipe the whole allocation, including spare capacity, before it goes
+        // back to the system allocator
+        let region = std::slice::from_raw_parts_mut(ptr.as_ptr(), layout.size());
+        dryoc_mprotect_readwrite(region)
+            .map_err(|err| eprintln!("mprotect error = {:?}", err))
+            .ok();
+        region.zeroize();
+
         #[cfg(feature = "dryoc_verif")]
         verif_hooks::observe_release(ptr.as_ptr(), layout.size());
 
